@@ -399,6 +399,11 @@ theorem C20_bounds_follow_p0 (bounds : List (String × (Rat × Rat))) (names : L
   intro i h
   simp [fillBounds, h]
 
+/-- generated-table obligation: the global minimiser hands scipy the same per-name boxes, in the order of `p0`, as the
+local one (`fillBounds Gen.defaultBox`, `C20_bounds_follow_p0`) — on the pinned tree it passed the caller's dict on as
+it was and every global method except basinhopping raised -/
+theorem C20_global_bounds_follow_p0 : Gen.globalUsesBox = true := rfl
+
 /-- a failed minimisation is reported as a failure, never as a fit -/
 theorem C20_fit_failure_propagates {α : Type}
     (minimize : (List α → α) → List α → Option (List α × α))
